@@ -36,6 +36,7 @@ type c11Case struct {
 	fault    string
 	ignoreEx bool // body ignores an Exec error
 	ctxEntry bool
+	cancelAt int // TransactCtx only: the caller's context is cancelled before statement k (stmts = just before the body returns); -1 never
 }
 
 var c11Cases = func() []c11Case {
@@ -56,8 +57,9 @@ var c11Cases = func() []c11Case {
 					if ign && !strings.HasPrefix(f, "exec#") {
 						continue
 					}
-					for _, ce := range []bool{false, true} {
-						out = append(out, c11Case{stmts, e.kind, e.at, f, ign, ce})
+					out = append(out, c11Case{stmts, e.kind, e.at, f, ign, false, -1})
+					for ca := -1; ca <= e.at && ca <= stmts; ca++ {
+						out = append(out, c11Case{stmts, e.kind, e.at, f, ign, true, ca})
 					}
 				}
 			}
@@ -71,7 +73,7 @@ func TestZsimC11(t *testing.T) {
 		Property: "C11", Name: "sqlx",
 		Run:     c11Run,
 		Horizon: time.Hour,
-		Rule:    fmt.Sprintf("even seeds enumerate the %d transaction cases (statements 0..3 x body ending nil/error/panic at statement k x driver fault at open/begin/exec#j/commit/rollback x body ignoring the exec error x Transact/TransactCtx) round-robin, each on a fresh connection; odd seeds draw a destination struct shape, column layout and result set for the row mapping; non-trivial = a driver fault or a non-nil body outcome occurred, or a column permutation / extra / missing column was generated; distinct = distinct event-log fingerprint", len(c11Cases)),
+		Rule:    fmt.Sprintf("even seeds enumerate the %d transaction cases (statements 0..3 x body ending nil/error/panic at statement k x driver fault at open/begin/exec#j/commit/rollback x body ignoring the exec error x Transact/TransactCtx x the caller's context cancelled before statement k or just before the body returns) round-robin, each on a fresh connection; odd seeds draw a destination struct shape, column layout and result set for the row mapping; non-trivial = a driver fault or a non-nil body outcome occurred, or a column permutation / extra / missing column was generated; distinct = distinct event-log fingerprint", len(c11Cases)),
 		Real:    []string{"lib/store/sqlx commonConn.Transact/TransactCtx, transact, transactOnConn, txSession", "lib/store/sqlx orm.go, stmt.go", "database/sql", "lib/breaker (per-connection breaker)"},
 		Stub:    []string{"fake database/sql driver (internal/zsim/zsql)", "transaction bodies (scripts)"},
 	})
@@ -100,9 +102,16 @@ func c11Tx(r *zsim.Run, c c11Case) {
 	bodyRan := false
 	executed := 0
 	var execErrSeen error
+	ctx, cancel := context.WithCancel(context.Background())
+	defer cancel()
 	body := func(s Session) error {
 		bodyRan = true
 		for k := 0; k <= c.stmts; k++ {
+			if k == c.cancelAt {
+				// the caller gives up; what the transaction does is still decided by the body's result alone
+				cancel()
+				r.FaultFired("caller-context-cancelled")
+			}
 			if k == c.at {
 				switch c.ending {
 				case 1:
@@ -129,7 +138,7 @@ func c11Tx(r *zsim.Run, c c11Case) {
 	func() {
 		defer func() { panicked = recover() }()
 		if c.ctxEntry {
-			err = conn.TransactCtx(context.Background(), func(_ context.Context, s Session) error { return body(s) })
+			err = conn.TransactCtx(ctx, func(_ context.Context, s Session) error { return body(s) })
 		} else {
 			err = conn.Transact(body)
 		}
@@ -384,10 +393,116 @@ func c11Embedded(r *zsim.Run) {
 	}
 }
 
+// c11SameName: destinations of different types that print the same name (function-local types, or types of
+// equally named packages) used one after the other in a drawn order: each is filled by its own tags.
+func c11SameName(r *zsim.Run) {
+	o := r.Ops
+	fdb, db := zsql.New()
+	defer db.Close()
+	cols := []string{"owner", "balance"}
+	fdb.Rows = func(string, []driver.NamedValue) ([]string, [][]driver.Value, error) {
+		return cols, [][]driver.Value{{"bob", int64(250)}}, nil
+	}
+	conn := NewConnFromDB(db)
+	r.NonTrivial()
+	v1 := func() (string, int64, error) {
+		type c11Account struct {
+			Owner   string `db:"owner"`
+			Balance int64  `db:"balance"`
+		}
+		var a c11Account
+		err := conn.QueryRow(&a, "select owner, balance from t")
+		return a.Owner, a.Balance, err
+	}
+	v2 := func() (string, int64, error) {
+		type c11Account struct {
+			Balance int64  `db:"balance"`
+			Owner   string `db:"owner"`
+			Note    string `db:"note"`
+		}
+		var a c11Account
+		err := conn.QueryRowPartial(&a, "select owner, balance from t")
+		return a.Owner, a.Balance, err
+	}
+	v3 := func() (string, int64, error) {
+		type c11Account struct {
+			Name  string `db:"owner"`
+			Funds int64  `db:"balance"`
+		}
+		var a []c11Account
+		err := conn.QueryRows(&a, "select owner, balance from t")
+		if err != nil || len(a) != 1 {
+			return "", 0, fmt.Errorf("rows=%d err=%v", len(a), err)
+		}
+		return a[0].Name, a[0].Funds, nil
+	}
+	fns := []func() (string, int64, error){v1, v2, v3}
+	for i := 0; i < 3+o.Intn(5); i++ {
+		k := o.Intn(3)
+		owner, bal, err := fns[k]()
+		r.Logf("same-name destination v%d -> %q %d %v", k+1, owner, bal, err)
+		if err != nil || owner != "bob" || bal != 250 {
+			r.Failf("wrong-field-value", "destination variant %d of a type printed as sqlx.c11Account received owner=%q balance=%d err=%v from the row (owner=bob, balance=250): fields are matched by the db tags of the destination's own type", k+1, owner, bal, err)
+			return
+		}
+	}
+}
+
+// c11Repeat: one connection sees the same outcome many times (transactions whose body reports "not found",
+// single-row queries on an empty result): the twentieth call behaves like the first - the body runs and its error
+// comes back, the query reports ErrNotFound - whatever the connection's breaker draws.
+func c11Repeat(r *zsim.Run) {
+	o := r.Ops
+	r.RandMode = 1 // the breaker rejects at any positive drop ratio
+	fdb, db := zsql.New()
+	defer db.Close()
+	fdb.Rows = func(string, []driver.NamedValue) ([]string, [][]driver.Value, error) { return []string{"a"}, nil, nil }
+	conn := NewConnFromDB(db)
+	kind := o.Intn(3)
+	n := 12 + o.Intn(40)
+	r.Logf("repeat kind=%d n=%d", kind, n)
+	r.NonTrivial()
+	for i := 0; i < n; i++ {
+		k := kind
+		if k == 2 {
+			k = o.Intn(2)
+		}
+		switch k {
+		case 0:
+			ran := false
+			err := conn.Transact(func(s Session) error {
+				ran = true
+				var v int
+				return s.QueryRow(&v, "select a from t where id=1")
+			})
+			if !ran || err != ErrNotFound {
+				r.Failf("wrong-error", "transaction %d on the connection: the body ran=%v and reports ErrNotFound, Transact returned %v", i+1, ran, err)
+				return
+			}
+		case 1:
+			var v int
+			if err := conn.QueryRow(&v, "select a from t where id=1"); err != ErrNotFound {
+				r.Failf("empty-result-not-reported", "single-row query %d on an empty result returned %v, want ErrNotFound", i+1, err)
+				return
+			}
+		}
+		if o.Intn(4) == 0 {
+			zsim.Sleep(time.Duration(o.Intn(3000)) * time.Millisecond)
+		}
+	}
+}
+
 func c11Rows(r *zsim.Run) {
 	o := r.Ops
-	if o.Intn(4) == 3 {
+	switch o.Intn(8) {
+	case 3, 7:
 		c11Embedded(r)
+		return
+	case 5:
+		c11SameName(r)
+		return
+	case 6:
+		c11Repeat(r)
 		return
 	}
 	nf := 1 + o.Intn(5)
